@@ -117,18 +117,7 @@ func (e *env) yield(log string, k fsim.Kind) {
 	}
 }
 
-// storeOpts translates the configuration. Known finding K14b (a read of a multi-chunk log fails spuriously when
-// another goroutine inserts into the log's open-file cache at the wrong moment): the transaction log is the one log
-// of a store that is read without a store-level lock (ExportTx, indexer) — while the finding is open its open-file
-// cache is made large enough never to evict.
-func storeOpts(cfg stx.Cfg) *store.Options {
-	o := cfg.Options()
-	if vk.Excluded(kfReadAt) {
-		vk.CountExcluded(kfReadAt)
-		o = o.WithTxLogMaxOpenedFiles(1 << 14)
-	}
-	return o
-}
+func storeOpts(cfg stx.Cfg) *store.Options { return cfg.Options() }
 
 func (e *env) open() {
 	st, err := store.Open(e.dir, storeOpts(e.cfg).WithAppFactory(e.fs.Factory()))
@@ -375,6 +364,9 @@ func (e *env) baseline(what string, from uint64) {
 	for id := from + 1; id <= e.n(); id++ {
 		l := e.tx(id)
 		e.place(l)
+		if id < e.cut {
+			continue // (a truncation ran while the history was being replicated: the primary's export stands)
+		}
 		b, err := e.exportBounded(what, id, true, "")
 		if err != nil {
 			e.failf("%s: ExportTx(%d) of a transaction at or after every cut (cut=%d): %v", what, id, e.cut, err)
@@ -554,6 +546,32 @@ func (e *env) loadByReplication(rt *rapid.T, window, total int) string {
 				e.failf("harness: replicator of tx %d did not append its values within 60 s (launch order %v)", i+1, order)
 			}
 			time.Sleep(20 * time.Microsecond)
+		}
+		// a truncation while replicators are in flight (values appended, transaction not committed yet)
+		if committed := e.st.LastCommittedTxID(); committed > 0 && rapid.IntRange(0, 9).Draw(rt, "truncDuringLoad") == 0 {
+			for drained := false; !drained; {
+				select {
+				case r := <-results:
+					take(r)
+				default:
+					drained = true
+				}
+			}
+			if inFlight > 0 {
+				if vk.Excluded(kfInflight) && os.Getenv("VERIF_C14_FORCE_INFLIGHT") == "" { // (the variable is a debugging aid)
+					vk.CountExcluded(kfInflight) // known finding K14c: the values of the in-flight transactions may be deleted
+				} else {
+					cn := uint64(rapid.IntRange(1, int(committed)).Draw(rt, "cutDuringLoad"))
+					if err := e.st.TruncateUptoTx(cn); err != nil {
+						e.failf("TruncateUptoTx(%d) with %d committed transactions and %d replicators in flight: %v", cn, committed, inFlight, err)
+					}
+					if cn > e.cut {
+						e.cut = cn
+					}
+					e.c.Label("truncation-with-replicators-in-flight")
+					e.c.Descf("L%d", cn)
+				}
+			}
 		}
 	}
 	for doneN < total {
